@@ -308,7 +308,7 @@ Print Assumptions C18_frames_clean.
 
 Theorem C18_delimiter_never_parsed_sax : forall w reads, reads <> [] ->
   cov (rev (fed (sx_run (sx_init w) reads))) (frames (concat reads)).
-Proof. intros. apply c18_delimiter_never_parsed; [exact sx_mono | exact sx_new_unrooted | assumption]. Qed.
+Proof. exact c18_delimiter_never_parsed_sax. Qed.
 Print Assumptions C18_delimiter_never_parsed_sax.
 
 (* non-vacuity: a machine that echoes what it is given, has its root after two octets, signals the switch on "!" and
